@@ -9,6 +9,9 @@ package main
 //     statement group becomes one constructor, anything else SkUnknown "<text>");
 //   - isValidKey's length constant and character ranges;
 //   - whether mem.Put stores a copy and mem.Get returns a copy;
+//   - whether each Create (fs, mem, mapped) uses its io.Reader parameter only
+//     as the argument of io.TeeReader / io.ReadAll / io.Copy (no Seek, no
+//     type assertion: consumed from where it stands);
 //   - createTemp's shape: the source of the staging file's name, its number
 //     of random bytes, and that the file is created in the directory given;
 //   - the normalised statement texts of the remaining small functions
@@ -202,6 +205,54 @@ func memCopies(texts []string, src, ret string) bool {
 	return rt
 }
 
+// readerUsedSequentially: the io.Reader parameter of a Create method is only
+// ever handed, as it is, to io.TeeReader / io.ReadAll / io.Copy - no type
+// assertion or type switch on it, no method called on it (Seek!), not stored,
+// not wrapped by anything else: the call can only consume it from where it
+// stands to its end.
+func readerUsedSequentially(p *pkg, fd *ast.FuncDecl) bool {
+	if fd == nil || fd.Body == nil {
+		return false
+	}
+	param := ""
+	for _, f := range fd.Type.Params.List {
+		if p.src(f.Type) == "io.Reader" && len(f.Names) == 1 {
+			param = f.Names[0].Name
+		}
+	}
+	if param == "" {
+		return false
+	}
+	allowed := map[*ast.Ident]bool{}
+	ast.Inspect(fd.Body, func(x ast.Node) bool {
+		if c, ok := x.(*ast.CallExpr); ok {
+			switch callName(p, c) {
+			case "io.TeeReader", "io.ReadAll":
+				if len(c.Args) >= 1 {
+					if id, ok := c.Args[0].(*ast.Ident); ok && id.Name == param {
+						allowed[id] = true
+					}
+				}
+			case "io.Copy":
+				if len(c.Args) == 2 {
+					if id, ok := c.Args[1].(*ast.Ident); ok && id.Name == param {
+						allowed[id] = true
+					}
+				}
+			}
+		}
+		return true
+	})
+	ok := len(allowed) == 1
+	ast.Inspect(fd.Body, func(x ast.Node) bool {
+		if id, is := x.(*ast.Ident); is && id.Name == param && !allowed[id] {
+			ok = false
+		}
+		return true
+	})
+	return ok
+}
+
 func coqBool(b bool) string {
 	if b {
 		return "true"
@@ -269,6 +320,11 @@ func genObj(repo string) (string, error) {
 	fmt.Fprintf(&b, "Definition gen_tmp_name_src : string := %s.\n", coqStr(tmpSrc))
 	fmt.Fprintf(&b, "Definition gen_tmp_name_bytes : N := %s%%N.\n", tmpBytes)
 	fmt.Fprintf(&b, "Definition gen_tmp_in_dir : bool := %s.\n\n", coqBool(tmpInDir))
+
+	fmt.Fprintf(&b, "Definition gen_create_uses_reader_sequentially : list bool :=\n  [ %s; %s; %s ].\n\n",
+		coqBool(readerUsedSequentially(po, po.funcDecl("fsObjects", "Create"))),
+		coqBool(readerUsedSequentially(po, po.funcDecl("mem", "Create"))),
+		coqBool(readerUsedSequentially(po, po.funcDecl("mappedStore", "Create"))))
 
 	putTexts := po.bodyTexts(po.funcDecl("mem", "Put"))
 	getTexts := po.bodyTexts(po.funcDecl("mem", "Get"))
